@@ -358,6 +358,9 @@ func c04(c *core.Ctx) {
 	if c.Rule("R6", "a context end in the middle of a call cannot turn into success: every exit of the HTTP response reader established an error, a non-OK code or a decoded trailer (shared with C02/R1); a streaming handler's returned (context) error is put on the wire in exactly one trailer frame on every path except after a failed response write (shared with C11/R4)", 6) {
 		c02HttpEOF(c)
 		c11OneTrailer(c, httpHandlerClosures(p))
+		// in-process: the sender abandons frames once the context is done, so a closed channel means "complete"
+		// only under a context re-check made after the receive (shared with C02/R1)
+		c02InprocRecheck(c)
 		c.EndRule()
 	}
 
